@@ -57,10 +57,14 @@ type registration struct {
 
 // invocation tracks in-progress invocation.
 type invocation struct {
-	callID      requestID
-	callee      *wamp.Session
-	canceled    bool
-	inProgress  bool
+	callID     requestID
+	callee     *wamp.Session
+	canceled   bool
+	inProgress bool
+	// answered is set when the callee answered the call finally while the
+	// caller was still sending chunks of a progressive call. The records are
+	// kept until the caller's last chunk, only to recognize the chunks.
+	answered    bool
 	timerCancel context.CancelFunc
 	options     wamp.Dict
 }
@@ -876,6 +880,16 @@ func (d *dealer) syncCall(caller *wamp.Session, msg *wamp.Call) {
 		// It is an ongoing progressive call (not first one)
 		invk = d.invocations[storedInvocationID]
 		invk.inProgress = isInProgress
+		if invk.answered {
+			// The callee already answered this call, so there is nobody to
+			// forward the chunk to. The last chunk ends the call's records.
+			if !isInProgress {
+				delete(d.invocations, storedInvocationID)
+				delete(d.invocationByCall, callReqID)
+				delete(d.calls, callReqID)
+			}
+			return
+		}
 		callee = invk.callee
 		invocationID = storedInvocationID.request
 	}
@@ -1109,6 +1123,13 @@ func (d *dealer) syncYield(callee *wamp.Session, msg *wamp.Yield, progress, canR
 		return false
 	}
 
+	// The callee already answered this call. The caller must not get a second
+	// final reply, or progressive results after the final one.
+	if invk.answered {
+		d.log.Println("Ignoring YIELD from session", callee, "for already answered request", msg.Request)
+		return false
+	}
+
 	callID := invk.callID
 	// Find caller for this result.
 	caller, ok := d.calls[callID]
@@ -1127,7 +1148,12 @@ func (d *dealer) syncYield(callee *wamp.Session, msg *wamp.Yield, progress, canR
 
 		// Clean up the invocation, unless need to retry.
 		defer func() {
-			if keepInvocation || invk.inProgress {
+			if keepInvocation {
+				return
+			}
+			if invk.inProgress {
+				// The caller is still sending chunks of this call.
+				invk.answered = true
 				return
 			}
 			delete(d.invocations, invkReqID)
@@ -1228,6 +1254,11 @@ func (d *dealer) syncError(callee *wamp.Session, msg *wamp.Error) {
 	}
 	delete(d.calls, callID)
 
+	if invk.answered {
+		// The caller already has the final result of this call.
+		return
+	}
+
 	// Send error to the caller.
 	d.trySend(caller, &wamp.Error{
 		Type:        wamp.CALL,
@@ -1283,6 +1314,13 @@ func (d *dealer) syncRemoveSession(sess *wamp.Session) []*wamp.Publish {
 		}
 		caller, ok := d.calls[invk.callID]
 		if !ok {
+			continue
+		}
+		if invk.answered {
+			// The caller already has the final result of this call.
+			delete(d.invocations, iid)
+			delete(d.invocationByCall, invk.callID)
+			delete(d.calls, invk.callID)
 			continue
 		}
 		// Stop any call timeout timer.
